@@ -112,7 +112,7 @@ theorem CacheLe.upd_none {c : Key → Option Val} {k : Key} (h : c k = none) (v 
   split
   · rfl
   · split
-    · split <;> simp
+    · simp
     · split <;> rfl
 
 /-! ### cacheStoreOrLoad -/
@@ -139,15 +139,11 @@ theorem pairCall_le (cfg s t r A B a b) : CacheLe s.cache (pairCall cfg s t r A 
   split
   · split
     · exact CacheLe.refl _
-    · split
-      · split <;> exact CacheLe.refl _
-      · next h => exact CacheLe.upd_none h b
+    · next h => exact CacheLe.upd_none h b
   · next hA =>
     simp only
     split
-    · split
-      · exact CacheLe.upd_none hA a
-      · exact CacheLe.upd_none hA a
+    · exact CacheLe.upd_none hA a
     · next h => exact CacheLe.trans (CacheLe.upd_none hA a) (CacheLe.upd_none h b)
 
 theorem fnReturn_le (cfg : Cfg) (hf : cfg.fixed = true) (s t rest tp refs res) :
@@ -189,7 +185,7 @@ theorem step_le (cfg : Cfg) (hf : cfg.fixed = true) (s s' : State) (t : Tid) (a 
     · cases h; simp; exact CacheLe.refl _
     · split at h
       · split at h
-        · split at h <;> cases h <;> simp <;> exact CacheLe.refl _
+        · cases h; simp; exact CacheLe.refl _
         · cases h; simp; exact CacheLe.refl _
         · cases h
         · cases h; simp; exact CacheLe.refl _
